@@ -761,13 +761,14 @@ def _(E, I, V):
 
 def _w_unmerge(W, I, V):
     W["node_ids"] = [V[2], V[5]]
-    si = {"adm_graph_ids": [V[1]] + (["adm-other"] if I["shared"] else [])}
+    # the id of the delegation model that stays merged is a stored, caller-chosen value as well (V[3])
+    si = {"adm_graph_ids": [V[1]] + ([V[3]] if I["shared"] else [])}
     props = {"Name": "nm0", "Type": "Server", "Site": V[4], "StructuralInfo": json.dumps(si)}
     for k in I["delegs"]:
         props[k] = _deleg_json(k, V[1])
     W["nodes"][V[2]] = (["NetworkNode"], props)
     W["nodes"][V[5]] = (["NetworkNode"], {"Name": "nm1", "Type": "Server",
-                                          "StructuralInfo": json.dumps({"adm_graph_ids": ["adm-other"]})})
+                                          "StructuralInfo": json.dumps({"adm_graph_ids": [V[3]]})})
 
 
 @op("unmerge_adm", 6, {"delegs": _DELEGS, "shared": [False, True]}, kind="compound", world=_w_unmerge, exact=False,
@@ -955,6 +956,23 @@ def enumerate_cases(tier):
 
 ENUM_EXHAUSTIVE = False
 
+# which operations reach each statement builder that has a recorded finding (measured on the pinned tree)
+PINNED_REACH = {
+    "C19/add_link/literal-not-escaped": {"add_link"},
+    "C19/add_node/literal-not-escaped": {"add_component_sliver", "add_interface_sliver", "add_network_link_sliver",
+                                         "add_network_node_sliver", "add_network_service_sliver", "add_node",
+                                         "topology.add_node+component"},
+    "C19/get_matching_nodes_with_components/dangling-comma": {"get_matching_nodes_with_components"},
+    "C19/get_matching_nodes_with_components/literal-not-escaped": {"get_matching_nodes_with_components"},
+    "C19/graph_exists/literal-not-escaped": {"find_matching_nodes", "graph_exists", "importer.cast_graph", "merge_adm",
+                                             "merge_nodes", "rollback"},
+    "C19/merge_nodes/literal-not-escaped": {"merge_nodes"},
+    "C19/serialize_graph/literal-not-escaped": {"clone_graph", "generate_adms", "get_bqm", "merge_adm",
+                                                "serialize_graph", "snapshot"},
+    "C19/update_link_properties/literal-not-escaped": {"update_link_properties"},
+    "C19/update_node_properties/literal-not-escaped": {"merge_adm", "rewrite_delegations", "update_node_properties"},
+}
+
 
 # ---------------------------------------------------------------------------------------------------------------
 # execution of one run
@@ -1043,6 +1061,10 @@ def run_case(case):
 
     def viol(issuer, clause, msg):
         sig = f"C19/{issuer}/{clause}"
+        # a recorded finding is tied to the operations that reached the defective statement builder on the pinned
+        # tree; the same builder newly reached from another operation is a different violation
+        if sig in PINNED_REACH and case["op"] not in PINNED_REACH[sig]:
+            sig = f"C19/{case['op']}>{issuer}/{clause}"
         if sig not in seen:
             seen.add(sig)
             v.append((sig, f"op={case['op']} idents={json.dumps(I, sort_keys=True)}: {msg}"))
